@@ -1,0 +1,114 @@
+//go:build verif && !appengine && !noasm && gc && !nogen
+
+// Kernel entry points for the verification harness in /verif (amd64 assembly builds).
+// Compiled only with -tags verif; adds exported functions and nothing else.
+
+package reedsolomon
+
+// VerifHasPshufb reports whether this build contains the PSHUFB (AVX2/SSSE3) kernels.
+func VerifHasPshufb() bool { return pshufb }
+
+// VerifGenKernel runs one generated matrix-multiply kernel through its switch function.
+// family: "avx2", "gfni" (AVX512+GFNI), "avxgfni".  rows holds outputs×inputs coefficients.
+// The kernel matrix is expanded with genCodeGenMatrix / genGFNIMatrix exactly as the codec does.
+func VerifGenKernel(family string, xor bool, rows [][]byte, in, out [][]byte, start, stop int) int {
+	inputs, outputs := len(in), len(out)
+	switch family {
+	case "avx2":
+		m := genCodeGenMatrix(rows, inputs, 0, outputs, 32, nil)
+		if xor {
+			return galMulSlicesAvx2Xor(m, in, out, start, stop)
+		}
+		return galMulSlicesAvx2(m, in, out, start, stop)
+	case "gfni":
+		m := genGFNIMatrix(rows, inputs, 0, outputs, make([]uint64, inputs*outputs))
+		if xor {
+			return galMulSlicesGFNIXor(m, in, out, start, stop)
+		}
+		return galMulSlicesGFNI(m, in, out, start, stop)
+	case "avxgfni":
+		m := genGFNIMatrix(rows, inputs, 0, outputs, make([]uint64, inputs*outputs))
+		if xor {
+			return galMulSlicesAvxGFNIXor(m, in, out, start, stop)
+		}
+		return galMulSlicesAvxGFNI(m, in, out, start, stop)
+	}
+	panic("unknown kernel family")
+}
+
+// VerifGenMatrix exposes the matrix expansion with an input offset.
+func VerifGenMatrix(gfni bool, rows [][]byte, inputs, inIdx, outputs int) ([]byte, []uint64) {
+	if gfni {
+		return nil, genGFNIMatrix(rows, inputs, inIdx, outputs, make([]uint64, inputs*outputs))
+	}
+	return genCodeGenMatrix(rows, inputs, inIdx, outputs, 32, nil), nil
+}
+
+func verifOptsFromFlags(flags string) *options {
+	o := &options{}
+	for _, c := range flags {
+		switch c {
+		case '2':
+			o.useSSE2 = true
+		case '3':
+			o.useSSSE3 = true
+		case 'a':
+			o.useAVX2 = true
+		case '5':
+			o.useAVX512 = true
+		case 'g':
+			o.useAvx512GFNI = true
+		case 'x':
+			o.useAvxGNFI = true
+		}
+	}
+	return o
+}
+
+// VerifGalMulSlice runs galMulSlice / galMulSliceXor with the given instruction set flags
+// ('2' SSE2, '3' SSSE3, 'a' AVX2, '5' AVX512, 'g' AVX512+GFNI, 'x' AVX+GFNI).
+func VerifGalMulSlice(c byte, in, out []byte, xor bool, flags string) {
+	o := verifOptsFromFlags(flags)
+	if xor {
+		galMulSliceXor(c, in, out, o)
+	} else {
+		galMulSlice(c, in, out, o)
+	}
+}
+
+// VerifSliceXor runs sliceXor (out ^= in).
+func VerifSliceXor(in, out []byte, flags string) { sliceXor(in, out, verifOptsFromFlags(flags)) }
+
+// Leopard GF(2^8) building blocks.
+func VerifFFTDIT28(x, y []byte, logM uint8, flags string) {
+	fftDIT28(x, y, ffe8(logM), verifOptsFromFlags(flags))
+}
+func VerifIFFTDIT28(x, y []byte, logM uint8, flags string) {
+	ifftDIT28(x, y, ffe8(logM), verifOptsFromFlags(flags))
+}
+func VerifMulgf8(out, in []byte, logM uint8, flags string) {
+	mulgf8(out, in, ffe8(logM), verifOptsFromFlags(flags))
+}
+func VerifFFTDIT48(work [][]byte, dist int, m01, m23, m02 uint8, flags string) {
+	fftDIT48(work, dist, ffe8(m01), ffe8(m23), ffe8(m02), verifOptsFromFlags(flags))
+}
+func VerifIFFTDIT48(work [][]byte, dist int, m01, m23, m02 uint8, flags string) {
+	ifftDIT48(work, dist, ffe8(m01), ffe8(m23), ffe8(m02), verifOptsFromFlags(flags))
+}
+
+// Leopard GF(2^16) building blocks.
+func VerifFFTDIT2(x, y []byte, logM uint16, flags string) {
+	fftDIT2(x, y, ffe(logM), verifOptsFromFlags(flags))
+}
+func VerifIFFTDIT2(x, y []byte, logM uint16, flags string) {
+	ifftDIT2(x, y, ffe(logM), verifOptsFromFlags(flags))
+}
+func VerifMulgf16(out, in []byte, logM uint16, flags string) {
+	mulgf16(out, in, ffe(logM), verifOptsFromFlags(flags))
+}
+func VerifFFTDIT4(work [][]byte, dist int, m01, m23, m02 uint16, flags string) {
+	fftDIT4(work, dist, ffe(m01), ffe(m23), ffe(m02), verifOptsFromFlags(flags))
+}
+func VerifIFFTDIT4(work [][]byte, dist int, m01, m23, m02 uint16, flags string) {
+	ifftDIT4(work, dist, ffe(m01), ffe(m23), ffe(m02), verifOptsFromFlags(flags))
+}
